@@ -654,3 +654,133 @@ impl Property for C15 {
         rep
     }
 }
+
+// =============================================================================== C15, stage giant
+
+/// One package with more than 65 536 candidates, all revealed (and so registered with the
+/// at-most-one tracker) through one "any version" requirement in preference order. The
+/// questions are pairs whose REGISTRATION positions differ by a power of two, 2^0 .. 2^16:
+/// the helper-variable encoding gives every registered candidate a binary code, and two
+/// codes that differ only in a high bit are where a narrowing or an off-by-one in the bit
+/// count would let two candidates of the package coexist.
+pub struct C15Giant {
+    pub stage: &'static str,
+    pub extra_max: usize,
+}
+
+impl C15Giant {
+    fn decode(&self, tape: &[u16]) -> (usize, bool, Vec<usize>) {
+        let mut t = Tape::new(tape);
+        let n = 65_536 + 1 + t.below(self.extra_max.max(1));
+        let reversed = t.chance(1, 2);
+        // one base position per power of two
+        let bases: Vec<usize> = (0..=16usize)
+            .map(|m| {
+                let room = n - (1usize << m);
+                t.below(room.min(4096))
+            })
+            .collect();
+        (n, reversed, bases)
+    }
+}
+
+impl Property for C15Giant {
+    fn id(&self) -> &'static str {
+        "C15"
+    }
+    fn stage(&self) -> &'static str {
+        self.stage
+    }
+    fn max_tape(&self) -> usize {
+        24
+    }
+    fn shrink_budget(&self) -> usize {
+        12
+    }
+    fn rule(&self) -> String {
+        "tape -> one package with 65537..66100 candidates, preference order as listed or reversed; root requires 'any version' (all candidates are registered with the at-most-one tracker in preference order) plus two singleton requirements on the candidates at registration positions a and a + 2^m, for every m = 0..16 and a generated a: each of the 17 problems must be Unsolvable; and requiring one of them alone must give exactly that candidate. Non-trivial: always (n > 65536). Distinct = distinct (n, order, positions).".into()
+    }
+    fn describe(&self, tape: &[u16]) -> String {
+        let (n, rev, bases) = self.decode(tape);
+        format!("n={n} preference order reversed={rev} base positions {bases:?}\n")
+    }
+    fn eval(&self, tape: &[u16]) -> CaseReport {
+        let (n, rev, bases) = self.decode(tape);
+        let mut rep = CaseReport {
+            case_hash: hash_of(&(n, rev, &bases)),
+            nontrivial: true,
+            ..Default::default()
+        };
+        let mut u = Universe::default();
+        u.strings.push(Str { id: 0, text: "reason".into() });
+        u.packages.push(Package {
+            name_id: 0,
+            name: "p".into(),
+            missing: false,
+            cands: (0..n)
+                .map(|i| Cand { sid: i as u32, version: i as u32 + 1, deps: Deps::empty(), excluded: None })
+                .collect(),
+            sort_rank: if rev { (0..n).rev().collect() } else { (0..n).collect() },
+            favored: None,
+            locked: None,
+            hint: Hint::None,
+            unlisted: vec![],
+        });
+        u.vsets.push(VSet { id: 0, pkg: 0, matches: (0..n).collect() });
+        let rank = u.packages[0].sort_rank.clone();
+        let mut questions: Vec<(usize, usize, usize)> = vec![];
+        for (m, &a) in bases.iter().enumerate() {
+            let (i, j) = (rank[a], rank[a + (1usize << m)]);
+            u.vsets.push(VSet { id: 0, pkg: 0, matches: vec![i] });
+            let vi = u.vsets.len() - 1;
+            u.vsets.push(VSet { id: 0, pkg: 0, matches: vec![j] });
+            let vj = u.vsets.len() - 1;
+            questions.push((m, vi, vj));
+        }
+        for (k, v) in u.vsets.iter_mut().enumerate() {
+            v.id = k as u32;
+        }
+        let u = Rc::new(u);
+        let cfg = RunCfg { render: false, ..Default::default() };
+        for (m, vi, vj) in questions {
+            let pair = Problem { reqs: vec![Req::Single(0), Req::Single(vi), Req::Single(vj)], constraints: vec![], soft: vec![] };
+            let res = run_once(&u, &pair, &cfg);
+            rep.evaluations += 1;
+            if let Some(f) = abnormal(&res.outcome, Cancel::Never) {
+                rep.failure = Some(f);
+                return rep;
+            }
+            if let Outcome::Sat(sol) = &res.outcome {
+                rep.failure = Some(Failure {
+                    signature: "C15:two-candidates-of-one-package".into(),
+                    detail: format!(
+                        "n={n}: the candidates registered at positions {} and {} (2^{m} apart) were required together and the problem was solved: solvable ids {:?}",
+                        bases[m],
+                        bases[m] + (1usize << m),
+                        sol
+                    ),
+                });
+                return rep;
+            }
+            if m % 8 == 0 {
+                // and one of them alone is selectable
+                let single = Problem { reqs: vec![Req::Single(0), Req::Single(vj)], constraints: vec![], soft: vec![] };
+                let res = run_once(&u, &single, &cfg);
+                rep.evaluations += 1;
+                let want = u.vsets[vj].matches[0] as u32;
+                match &res.outcome {
+                    Outcome::Sat(sol) if sol == &vec![want] => {}
+                    other => {
+                        rep.failure = Some(abnormal(other, Cancel::Never).unwrap_or(Failure {
+                            signature: "C15:single-candidate-not-selectable".into(),
+                            detail: format!("n={n}: requiring candidate id {want} alone gave {} {:?}", other.kind(), if let Outcome::Sat(s) = other { s.clone() } else { vec![] }),
+                        }));
+                        return rep;
+                    }
+                }
+            }
+        }
+        rep.labels.push("n>65536");
+        rep
+    }
+}
